@@ -70,10 +70,12 @@ def _paths():
 
 
 @st.composite
-def overlay(draw):
-    """One overlay layer (file or kwargs)."""
+def overlay(draw, kw=False):
+    """One overlay layer (file or kwargs).  kw=True: keyword arguments, which (unlike TOML) can also say None."""
     out = {}
     paths = _paths()
+    if kw:
+        paths['weather_data_dir'] = paths['weather_data_dir'] + [None, None]
     if draw(st.booleans()):
         out['emissions'] = draw(emissions_table())
     if draw(st.integers(0, 3)) == 0:
@@ -104,6 +106,7 @@ def overlay(draw):
 INVALID_KINDS = [
     'bad_enum', 'bad_type', 'missing_perf', 'missing_engine', 'missing_weather',
     'missing_config_file', 'malformed_toml', 'bad_enum_in_file', 'missing_perf_in_file',
+    'empty_config_path', 'none_for_required',
 ]
 
 
@@ -168,7 +171,8 @@ def flatten_expected(eff: dict) -> dict:
         out[('emissions', k)] = v.lower() if (k in ENUMS) else v
     out[('weather', 'use_weather')] = eff['weather']['use_weather']
     search = [Path(x) for x in eff['path']] if eff.get('path') else None
-    out[('weather', 'weather_data_dir')] = expected_path(eff['weather']['weather_data_dir'], search)
+    wdir = eff['weather']['weather_data_dir']  # optional setting: an explicit None overrides the default and stays None
+    out[('weather', 'weather_data_dir')] = None if wdir is None else expected_path(wdir, search)
     out[('performance_model',)] = expected_path(eff['performance_model'], search)
     out[('engine_file',)] = expected_path(eff['engine_file'], search)
     if eff.get('path'):
@@ -270,7 +274,7 @@ class ConfigMachine(LoggedMachine):
                                   f'{where}: {".".join(key)} = {got!r}, expected {want!r}')
 
     # ---- rules
-    @rule(file=st.one_of(st.none(), overlay()), kwargs=overlay(), reuse=st.integers(0, 3))
+    @rule(file=st.one_of(st.none(), overlay()), kwargs=overlay(kw=True), reuse=st.integers(0, 3))
     def load_valid(self, file, kwargs, reuse=0):
         from AEIC.config import Config
 
@@ -361,6 +365,17 @@ class ConfigMachine(LoggedMachine):
             kwargs.setdefault('weather', {})['weather_data_dir'] = 'no_such_weather_dir'
         elif kind == 'missing_config_file':
             cfgfile = str(self.dir / 'absent.toml')
+        elif kind == 'empty_config_path':
+            cfgfile = ''  # a path that cannot be opened, not "no file"
+        elif kind == 'none_for_required':
+            # None for a setting that has no "unset" state
+            which = len(self.log) % 3
+            if which == 0:
+                kwargs['performance_model'] = None
+            elif which == 1:
+                kwargs['engine_file'] = None
+            else:
+                kwargs.setdefault('emissions', {})['co2_enabled'] = None
         elif kind == 'malformed_toml':
             cfgfile = self._write('[emissions\nco2_enabled = tru\n')
         elif kind == 'bad_enum_in_file':
